@@ -20,14 +20,24 @@ OUTSIDE = ['instruction-name round trip (inst_id_to_string / string_to_inst_id):
 ASSUMPTIONS = ['forms accepted by the pinned release are vendored in checks/C01/forms_status.json']
 
 # ---- units 'names' (x86) and 'names_a64': instruction-name round trip (h_names.cpp) -------------------------------------------------
-# Two units from one source so that, per unit, every library function has one call chain and is inlined the same way whichever
-# harnesses are selected (loop names in the unwindsets below depend on it).
+# Two units from one source: per unit every library function then has one call chain and is inlined the same way whichever harnesses
+# are selected (the loop names in the unwindsets below depend on it; the harness calls go through noinline wrappers for the same reason).
 import re as _re
 _NAMES_CORE = ['asmjit/core/instdb.cpp', 'asmjit/core/string.cpp']
-UNITS.append(Unit('names', harness=['h_names.cpp'], repo_units=_NAMES_CORE + ['asmjit/x86/x86instdb.cpp', 'asmjit/x86/x86instapi.cpp', 'asmjit/arm/a64instdb.cpp'], wrap=['malloc', 'realloc'], extra_c=['names_mem.c']))
+UNITS.append(Unit('names', harness=['h_names.cpp'], repo_units=_NAMES_CORE + ['asmjit/x86/x86instdb.cpp', 'asmjit/x86/x86instapi.cpp'], wrap=['malloc', 'realloc'], extra_c=['names_mem.c']))
 UNITS.append(Unit('names_a64', harness=['h_names.cpp'], repo_units=_NAMES_CORE + ['asmjit/arm/a64instdb.cpp', 'asmjit/arm/a64instapi.cpp'], wrap=['malloc', 'realloc'], extra_c=['names_mem.c']))
+_XID = '_ZN12_GLOBAL__N_13X865to_idEPKcm'      # X86::to_id with string_to_inst_id, find_instruction and find_alias inlined
+_AID = '_ZN12_GLOBAL__N_13A645to_idEPKcm'      # A64::to_id with string_to_inst_id inlined (loop 0 = the linear scan)
+_FIND = '_ZN6asmjit5v1_2113InstNameUtils16find_instructionEPKcmPKjS3_RKNS0_13InstNameIndexE'
+def _x86_uw(outer):
+    # .1/.5 compare_string_views (<= 17 characters), .3 binary search of find_instruction, .7 binary search of find_alias (44 aliases),
+    # memcpy.0: the copy loops of decode_to_buffer / String::append (<= 17 characters)
+    return '%s.1:18,%s.3:%d,%s.5:18,%s.7:7,memcpy.0:18' % (_XID, _XID, outer, _XID, _XID)
+def _a64_uw(scan):
+    return '%s.0:%d,%s.1:11,%s.3:10,memcpy.0:11,memcmp.0:11' % (_AID, scan, _FIND, _FIND)
 _names_src = open(os.path.join(os.path.dirname(os.path.abspath(__file__)), 'h_names.cpp')).read()
-_names_fns = _re.findall(r'^HARNESS (h_names_\w+)\(\)', _names_src, _re.M)
-_names_fns += ['h_names_%s_%s%s' % (m[0], m[1], m[2]) for m in _re.findall(r'NAMES\((x86|a64), \w+, (\w), +\d+, (\w*), \d, \d\)', _names_src)]
+_names_fns = _re.findall(r'^HARNESS (h_names_\w+)\(\)', _names_src, _re.M) + ['h_names_a64_' + l for l in _re.findall(r'NAMES_A64\((\w), +\d+\)', _names_src)]
 for _fn in _names_fns:
-    HARNESSES.append(Harness('names_a64' if '_a64_' in _fn else 'names', _fn, unwind=21, mem_gb=4, timeout=900, bounds='TODO'))
+    _a64 = '_a64_' in _fn
+    HARNESSES.append(Harness('names_a64' if _a64 else 'names', _fn, unwind=21, mem_gb=10 if _fn == 'h_names_x86_all' else 6, timeout=1800,
+                             unwindset=_a64_uw(800) if _a64 else _x86_uw(11 if _fn == 'h_names_x86_all' else 8), object_bits=12 if _a64 else None, bounds='TODO'))
